@@ -78,6 +78,7 @@ type c18Case struct {
 	rng      *verifx.Rng
 	commits  int
 	queued   int // entries committed and not yet finalized (as observed)
+	lastMs   int64 // millisecond of the last outbox entry written by this case
 	held     [2]string // entry the slot's worker claimed and has not finalized / released yet
 	robbed   [2]bool   // another worker claimed that same entry meanwhile: this one is a straggler
 	reader   partstore.PartStore // reads whose two look-ups can be separated by a flush (idsmid)
@@ -389,11 +390,26 @@ type c18Op struct {
 	data []byte
 }
 
+// c18NextMilli waits until the wall clock has moved past the millisecond of the previous outbox
+// entry of this case. Entry ids are ULIDs made by ulid.Make(): their order is the commit order only
+// as long as later entries get a later millisecond or the process-wide monotonic entropy is not reset
+// in between — and it IS reset whenever another goroutine (here: another lane of this harness) calls
+// ulid.Make() with an older millisecond between two calls that share one. Spacing the entries of a
+// case by a millisecond keeps the tie's assumption "entry ids ascend in commit order" true under the
+// harness' own parallelism.
+func c18NextMilli(last *int64) {
+	for time.Now().UnixMilli() <= *last {
+		time.Sleep(200 * time.Microsecond)
+	}
+	*last = time.Now().UnixMilli()
+}
+
 func (cs *c18Case) commit(ops []c18Op) {
 	var ids []string
 	err := database.WithTx(cs.ctx, cs.raw, &sql.TxOptions{ReadOnly: false}, func(ctx context.Context, tx database.Tx) error {
 		for _, op := range ops {
 			var err error
+			c18NextMilli(&cs.lastMs)
 			if op.put {
 				err = cs.writer.PutPart(ctx, tx, cs.parts[op.part], bytes.NewReader(op.data))
 			} else {
